@@ -68,9 +68,20 @@ def sumR (l : List Rat) : Rat := l.foldr (· + ·) 0
 /-- `10 ** -12` -/
 def tol12 : Rat := 1 / 1000000000000
 
-/-- the self-check at the end of `compute_weights` -/
+/-- Python `abs` -/
+def absR (x : Rat) : Rat := if x < 0 then -x else x
+
+/-- `sum(abs(weights))` -/
+def sumAbs (l : List Rat) : Rat := sumR (l.map absR)
+
+/-- Python `max(x, y)` -/
+def maxR (x y : Rat) : Rat := if x < y then y else x
+
+/-- the self-check at the end of `compute_weights`:
+`abs(sum(weights[1:-1]) - (b - a)) <= 10 ** -12 * max(b - a, sum(abs(weights)))` (tolerance relative to the size of the
+weights, which are huge and sign-changing on strongly graded grids) -/
 def sumAssertOk (a b : Rat) (ws : List Rat) : Bool :=
-  decide ((b - a) * (1 - tol12) ≤ sumR (dropEnds ws)) && decide (sumR (dropEnds ws) ≤ (b - a) * (1 + tol12))
+  decide (absR (sumR (dropEnds ws) - (b - a)) ≤ tol12 * maxR (b - a) (sumAbs ws))
 
 /-- `compute_weights(grid_1D, a, b, modified_basis=True)`: the 3-point and 4-point special cases, the loop for
 the other lengths, the overwriting of the two end weights and the final self-assert -/
